@@ -278,7 +278,7 @@ func report(r *vlib.Run, mode string, trial int, ops []op, at int, mm *mismatch)
 	r.Violation(mode, trial, mm.sig, fmt.Sprintf("after step %d of %v: %s", at, strs, mm.what), map[string]interface{}{"ops": ops, "failed_at_step": at})
 }
 
-var exhPaths = [][]string{{}, {"a"}, {"a", "b"}, {"a", "b", "a"}, {"b"}}
+var exhPaths = [][]string{{}, {"a"}, {"a", "b"}, {"a", "b", "a"}, {"b"}, {"a", "*"}}
 var exhQueries = [][]string{{}, {"*"}, {"a"}, {"a", "*"}, {"a", "*", "*"}, {"*", "b"}, {"a", "b"}, {"a", "*", "a"}, {"b", "*"}}
 var exhProbes = [][]string{{}, {"a"}, {"a", "b"}, {"a", "b", "a"}, {"b"}, {"a", "a"}, {"b", "a"}}
 
@@ -352,8 +352,11 @@ func body(r *vlib.Run) {
 	randPath := func(rng *rand.Rand, glob bool, maxDepth int) []string {
 		n := rng.Intn(maxDepth + 1)
 		p := make([]string, n)
+		// Stored paths may contain an element literally named "*" (rarely); in
+		// queries and deletes "*" is the glob.
+		literalStar := !glob && rng.Intn(6) == 0
 		for i := range p {
-			if glob && rng.Intn(4) == 0 {
+			if (glob && rng.Intn(4) == 0) || (literalStar && rng.Intn(3) == 0) {
 				p[i] = "*"
 			} else {
 				p[i] = names[rng.Intn(len(names))]
@@ -413,7 +416,7 @@ func body(r *vlib.Run) {
 func main() {
 	vlib.Main(&vlib.Spec{
 		ID: "C09",
-		Rule: "exhaustive: every sequence of <= 4 (thorough 5) operations over an alphabet of 23 operations (Add at 5 paths incl. the root, Delete/DeleteConditional at 7 wildcard paths, WalkDeleted at 4) with the whole tree, 9 wildcard queries and 7 point lookups compared with the model after every step; " +
+		Rule: "exhaustive: every sequence of <= 4 (thorough 5) operations over an alphabet of 24 operations (Add at 6 paths incl. the root and one with an element literally named '*', Delete/DeleteConditional at 7 wildcard paths, WalkDeleted at 4) with the whole tree, 9 wildcard queries and 7 point lookups compared with the model after every step; " +
 			"random: seeded histories of 10-80 operations over {a,b,c,*} to depth 4 incl. updates through live leaf handles. A history is counted as distinct non-trivial when it contains a successful add and (a delete that removed something or a rejected add) [random: all three], hashed by its operation list.",
 		Assumptions: []string{
 			"model.Tree (prefix-free map; MatchQ with one trailing glob past a leaf) is the specification",
